@@ -63,6 +63,8 @@ class Spy:
     def __init__(self, env, ident):
         self.env, self.ident = env, ident
         self.probe = None
+        self.script = None         # re-entrant histories: calls made on the container from inside dispose(),
+        self.world = None          # the first time this item is disposed
 
     def dispose(self):
         self.env.yield_point()
@@ -71,6 +73,10 @@ class Spy:
             if bad:
                 self.env.flags.append(bad)
         self.env.emit("disp", self.ident)
+        if self.script:
+            script, self.script = self.script, None
+            for op in script:
+                self.world.call(op)
 
     def __repr__(self):
         return f"<spy {self.ident}>"
@@ -118,18 +124,28 @@ N_ITEMS = 5
 
 
 class World:
-    def __init__(self, kind, init=None, falsy=(), n_items=N_ITEMS):
-        """init: composite -> (ctor style 'args'|'list', [item ids]); scheduled/refcount -> wrapped item id"""
+    def __init__(self, kind, init=None, falsy=(), n_items=N_ITEMS, scripts=None):
+        """init: composite -> (ctor style 'args'|'list', [item ids]); scheduled/refcount -> wrapped item id.
+        scripts: {item id (or 'action'): [calls]} made re-entrantly from inside that item's first dispose()"""
         import reactivex.disposable as D
         self.kind = kind
         self.env = Env()
         self.items = make_items(self.env, n_items, falsy)
         self.handles = []
         env = self.env
+        scripts = dict(scripts or {})
+        for it in self.items:
+            it.world = self
+            it.script = list(scripts.get(it.ident) or []) or None
         if kind == "disposable":
+            pending = [list(scripts.get("action") or [])]
+
             def action():
                 env.yield_point()
                 env.emit("run")
+                script, pending[0] = pending[0], []
+                for op in script:
+                    self.call(op)
             self.obj = D.Disposable(action)
         elif kind == "boolean":
             self.obj = D.BooleanDisposable()
@@ -233,10 +249,13 @@ class World:
                 env.emit("exc", f"{type(e).__name__}: {e}")
 
 
-def run_seq(kind, init, history, falsy=(), snaps=None):
+def run_seq(kind, init, history, falsy=(), snaps=None, scripts=None, begun=None):
     """-> list (one per call) of lists of observations; if `snaps` is a list, the public state
-    after construction and after every call is appended to it"""
-    w = World(kind, init, falsy)
+    after construction and after every call is appended to it; `begun` receives every call begun
+    (top-level and re-entrant)"""
+    w = World(kind, init, falsy, scripts=scripts)
+    if begun is not None:
+        w.env.begun = begun
     outs = []
     if snaps is not None:
         snaps.append(w.snapshot())
